@@ -51,16 +51,22 @@ inductive CacheFile where
   | record (k : Key) (st : Stamps) (sn : Snap)   -- `sn` is a ghost field (what the run had parsed)
   deriving Repr, DecidableEq
 
-/-- the phases of one (cache-missing) run, in code order -/
+/-- the phases of one (cache-missing) run, in code order. `load` makes three passes over the build files:
+    for each file `stat` then read+parse (`parsing`/`reading`; `pre` = the stamps seen just before each read),
+    then the treestate pass (`statting`, records `st`), then the comparison pass (`checking`: is every file's
+    stamp still what it was just before it was read?). `ok = false` means "a build file changed while it was
+    being loaded": the run completes but writes no cache record. -/
 inductive Proc where
   | idle
-  | parsing (k : Key) (todo : List File) (sn : Snap)
-  | statting (k : Key) (sn : Snap) (todo : List File) (st : Stamps)
-  | statted (k : Key) (sn : Snap) (st : Stamps)      -- `load` returned
-  | removed (k : Key) (sn : Snap) (st : Stamps)      -- the old cache file is gone
-  | created (k : Key) (sn : Snap) (st : Stamps)      -- ninja file created (truncated), header buffered
-  | written (k : Key) (sn : Snap) (st : Stamps)      -- all entries handed to the BufWriter
-  | flushed (k : Key) (sn : Snap) (st : Stamps)      -- buffer flushed: the file is complete
+  | parsing (k : Key) (todo : List File) (sn : Snap) (pre : Stamps)
+  | reading (k : Key) (f : File) (todo : List File) (sn : Snap) (pre : Stamps)   -- `f` stat'ed, about to be read
+  | statting (k : Key) (sn : Snap) (todo : List File) (st : Stamps) (pre : Stamps)
+  | checking (k : Key) (sn : Snap) (st : Stamps) (todo : Stamps) (ok : Bool)
+  | statted (k : Key) (sn : Snap) (st : Stamps) (ok : Bool)      -- `load` returned
+  | removed (k : Key) (sn : Snap) (st : Stamps) (ok : Bool)      -- the old cache file is gone
+  | created (k : Key) (sn : Snap) (st : Stamps) (ok : Bool)      -- ninja file created (truncated), header buffered
+  | written (k : Key) (sn : Snap) (st : Stamps) (ok : Bool)      -- all entries handed to the BufWriter
+  | flushed (k : Key) (sn : Snap) (st : Stamps) (ok : Bool)      -- buffer flushed: the file is complete
   deriving Repr, DecidableEq
 
 structure State where
@@ -90,14 +96,10 @@ inductive Ev where
   | fail                                  -- generation reports an error (possible while configuring/writing)
   deriving Repr
 
-def inWindow : Proc → Bool
-  | .parsing .. | .statting .. => true
-  | _ => false
-
 def next (s : State) : Ev → State
   | .edit f => { s with tree := s.tree.edit f }
   | .start k files => match s.proc with
-      | .idle => { s with proc := .parsing k files [] }
+      | .idle => { s with proc := .parsing k files [] [] }
       | _ => s
   | .kill => { s with proc := .idle }
   | .fail => match s.proc with
@@ -105,15 +107,18 @@ def next (s : State) : Ev → State
       | _ => s
   | .step => match s.proc with
       | .idle => s
-      | .parsing k [] sn => { s with proc := .statting k sn (sn.map (·.1)) [] }
-      | .parsing k (f :: todo) sn => { s with proc := .parsing k todo (sn ++ [(f, s.tree.ver f)]) }
-      | .statting k sn [] st => { s with proc := .statted k sn st }
-      | .statting k sn (f :: todo) st => { s with proc := .statting k sn todo (st ++ [(f, s.tree.stamp f)]) }
-      | .statted k sn st => { s with cache := .absent, proc := .removed k sn st }
-      | .removed k sn st => { s with ninja := .short, proc := .created k sn st }
-      | .created k sn st => { s with proc := .written k sn st }
-      | .written k sn st => { s with ninja := .complete sn k, proc := .flushed k sn st }
-      | .flushed k sn st => { s with cache := .record k st sn, proc := .idle }
+      | .parsing k [] sn pre => { s with proc := .statting k sn (sn.map (·.1)) [] pre }
+      | .parsing k (f :: todo) sn pre => { s with proc := .reading k f todo sn (pre ++ [(f, s.tree.stamp f)]) }
+      | .reading k f todo sn pre => { s with proc := .parsing k todo (sn ++ [(f, s.tree.ver f)]) pre }
+      | .statting k sn [] st pre => { s with proc := .checking k sn st pre true }
+      | .statting k sn (f :: todo) st pre => { s with proc := .statting k sn todo (st ++ [(f, s.tree.stamp f)]) pre }
+      | .checking k sn st [] ok => { s with proc := .statted k sn st ok }
+      | .checking k sn st (q :: todo) ok => { s with proc := .checking k sn st todo (ok && (s.tree.stamp q.1 == q.2)) }
+      | .statted k sn st ok => { s with cache := .absent, proc := .removed k sn st ok }
+      | .removed k sn st ok => { s with ninja := .short, proc := .created k sn st ok }
+      | .created k sn st ok => { s with proc := .written k sn st ok }
+      | .written k sn st ok => { s with ninja := .complete sn k, proc := .flushed k sn st ok }
+      | .flushed k sn st ok => { s with cache := if ok then .record k st sn else s.cache, proc := .idle }
 
 def init : State :=
   { tree := { stamp := fun _ => 0, ver := fun _ => 0, clock := 1 }, ninja := .absent, cache := .absent, proc := .idle }
@@ -132,7 +137,9 @@ def stepsUntil (p : Proc → Bool) : Nat → State → State
   | 0, s => s
   | n+1, s => if p s.proc || s.proc == .idle then s else stepsUntil p n (next s .step)
 
+/-- `load` has returned: treestate taken and compared (fault point `after_stat`) -/
 def isStatted : Proc → Bool | .statted .. => true | _ => false
+/-- all files read, the treestate pass not yet begun (fault point `after_parse`) -/
 def isParsedAll : Proc → Bool | .statting .. => true | _ => false
 def isRemoved : Proc → Bool | .removed .. => true | _ => false
 def isCreated : Proc → Bool | .created .. => true | _ => false
@@ -146,7 +153,7 @@ inductive Report where
 /-- one laze run with key `k` that loads `files`, killed at `stop` (or running to completion) -/
 def run (s : State) (k : Key) (files : List File) (stop : StopAt) : State × Report :=
   if hit s k then (s, .hit) else
-  let fuel := 2 * files.length + 12
+  let fuel := 4 * files.length + 12
   let s0 := next s (.start k files)
   let upTo (p : Proc → Bool) := stepsUntil p fuel s0
   match stop with
@@ -163,7 +170,15 @@ def run (s : State) (k : Key) (files : List File) (stop : StopAt) : State × Rep
 /-- a run whose generation fails after the ninja file was created (e.g. unknown builder, bad rule) -/
 def runFailing (s : State) (k : Key) (files : List File) : State × Report :=
   if hit s k then (s, .hit) else
-  let fuel := 2 * files.length + 12
+  let fuel := 4 * files.length + 12
   (next (stepsUntil isCreated fuel (next s (.start k files))) .fail, .stopped)
+
+/-- a complete cache-missing run during which build file `f` is edited exactly at the `after_parse` point
+    (every file has been read, the treestate pass has not begun) -/
+def runWithEdit (s : State) (k : Key) (files : List File) (f : File) : State × Report :=
+  if hit s k then (s, .hit) else
+  let fuel := 4 * files.length + 12
+  let s1 := stepsUntil isParsedAll fuel (next s (.start k files))
+  (stepsUntil (fun _ => false) fuel (next s1 (.edit f)), .done)
 
 end Laze.Cache
